@@ -139,6 +139,70 @@ def make(name, scale=1.0, shift=0j, rot=0):
     w = _rot(rot)
     if name in ARCS:
         s, r, rotation, la, sw, e = v
-        return Arc(s * w * scale + shift, r * scale, rotation + rot, la, sw, e * w * scale + shift)
-    pts = [p * w * scale + shift for p in v]
-    return {2: Line, 3: QuadraticBezier, 4: CubicBezier}[len(pts)](*pts)
+        seg = Arc(s * w * scale + shift, r * scale, rotation + rot, la, sw, e * w * scale + shift)
+    else:
+        pts = [p * w * scale + shift for p in v]
+        seg = {2: Line, 3: QuadraticBezier, 4: CubicBezier}[len(pts)](*pts)
+    from mc import core
+    return derive(seg, core.CONTEXT.get('prov'))
+
+
+# How a segment came into being.  Every entry returns the SAME curve (same defining values, up to the type of
+# the numbers), but as the library itself hands it out: with numpy scalars, with caches filled, re-created from
+# derived values.  A harness shard with {'prov': p} runs all its cases on such objects, against unchanged oracles.
+PROVENANCES = ['reversed_twice', 'via_d_string', 'translated_0', 'scaled_1', 'rotated_0', 'cropped_full', 'numpy_scalars', 'warmed']
+
+
+def derive(seg, prov):
+    if not prov:
+        return seg
+    import numpy as np
+    from svgpathtools import parse_path
+    if prov == 'reversed_twice':
+        return seg.reversed().reversed()
+    if prov == 'via_d_string':
+        if isinstance(seg, Line) and seg.start == seg.end:
+            return seg
+        out = parse_path(Path(seg).d())
+        return out[0] if len(out) == 1 and type(out[0]) is type(seg) else seg
+    if prov == 'translated_0':
+        return seg.translated(0j)
+    if prov == 'scaled_1':
+        return seg.scaled(1.0)
+    if prov == 'rotated_0':
+        return seg.rotated(0, origin=0j)
+    if prov == 'cropped_full':
+        return seg if isinstance(seg, Arc) else seg.cropped(0, 1)
+    if prov == 'numpy_scalars':
+        if isinstance(seg, Arc):
+            return Arc(np.complex128(seg.start), seg.radius, seg.rotation, seg.large_arc, seg.sweep, np.complex128(seg.end))
+        return type(seg)(*[np.complex128(p) for p in seg.bpoints()])
+    if prov == 'warmed':
+        import warnings
+        with warnings.catch_warnings():
+            warnings.simplefilter('ignore')
+            for q in (lambda: seg.length(), lambda: seg.bbox(), lambda: seg.length(0.1, 0.6), lambda: seg.point(0.3),
+                      lambda: seg.derivative(0.3), lambda: getattr(seg, 'poly', lambda: None)(), lambda: seg.reversed(), lambda: hash(seg)):
+                try:
+                    q()
+                except Exception:
+                    pass
+        return seg
+    raise ValueError(prov)
+
+
+
+def provenance_shards(shards, tier, is_segment_shard):
+    """extra shard descriptors that re-run segment-library shards on derived objects: every provenance in
+    the thorough tier, one per shard (rotating through the list) in the quick tier"""
+    out = []
+    k = 0
+    for d in shards:
+        if not is_segment_shard(d):
+            continue
+        if tier == 'thorough':
+            out += [dict(d, prov=p) for p in PROVENANCES]
+        else:
+            out.append(dict(d, prov=PROVENANCES[k % len(PROVENANCES)]))
+            k += 1
+    return out
